@@ -52,15 +52,15 @@ func hostileFilter(depth int) *rapid.Generator[Filter] {
 			}
 		case "cond":
 			if rapid.Bool().Draw(t, "hp") {
-				x := hostileFilter(depth - 1).Draw(t, "pred")
+				x := hostileFilter(depth-1).Draw(t, "pred")
 				f.Pred = &x
 			}
 			if rapid.Bool().Draw(t, "ht") {
-				x := hostileFilter(depth - 1).Draw(t, "true")
+				x := hostileFilter(depth-1).Draw(t, "true")
 				f.True = &x
 			}
 			if rapid.Bool().Draw(t, "hf") {
-				x := hostileFilter(depth - 1).Draw(t, "false")
+				x := hostileFilter(depth-1).Draw(t, "false")
 				f.False = &x
 			}
 		}
@@ -88,7 +88,7 @@ func GenHostileOp(tables []string) *rapid.Generator[Op] {
 	return rapid.Custom(func(t *rapid.T) Op {
 		op := Op{K: rapid.SampledFrom([]string{"MutateRow", "MutateRows", "CheckAndMutate", "RMW", "ReadRows", "ReadRows", "Sample", "CreateTable", "GetTable", "ListTables",
 			"DeleteTable", "ModifyCF", "DropRowRange", "GenToken", "CheckConsistency"}).Draw(t, "op"),
-			Table: rapid.SampledFrom(append(append([]string{}, tables...), "", "nope", strings.Repeat("t", 70000), "a/b", "x/tables/y")).Draw(t, "table"),
+			Table:  rapid.SampledFrom(append(append([]string{}, tables...), "", "nope", strings.Repeat("t", 70000), "a/b", "x/tables/y")).Draw(t, "table"),
 			Parent: rapid.SampledFrom([]string{"", "", "", "p", strings.Repeat("p", 70000)}).Draw(t, "parent")}
 		op.Key = hostileBS().Draw(t, "key")
 		switch op.K {
